@@ -19,8 +19,13 @@ class Prop:
         raise NotImplementedError
     def exhaustive(self, tier):
         return False
+    proto_class_only = False      # compare Protocol errors by class, not by variant (the property does not name the variant)
+
     def project(self, case_line, trace):
         """observables the property's theorems depend on; default: everything"""
+        if self.proto_class_only:
+            import re
+            return re.sub(r'err:proto:[A-Za-z]+(:[0-9a-f]+)?', 'err:proto', trace)
         return trace
     def monitor(self, case_line, impl_trace, mline):
         """independent oracle on the implementation's trace: None or a description of the violated clause"""
